@@ -58,6 +58,11 @@ func auditFamilies(quick bool, N int) []vexplore.Scenario {
 		}
 		add(history{Format: "xml", K: kFor(stop, 3), Stop: stop, Post: "SECSE", CtxKind: ctxDeadline}, 2)
 	}
+	// ... and with a cause (context.WithCancelCause): Err() of the context is still Canceled
+	for _, stop := range cancelling {
+		add(history{Format: "pbf", Procs: 2, K: kFor(stop, 3), HeaderAt: -1, Stop: stop, Post: "SECSE", CtxKind: ctxCause}, d1)
+		add(history{Format: "xml", K: kFor(stop, 3), Stop: stop, Post: "SECSE", CtxKind: ctxCause}, d1)
+	}
 	add(history{Format: "pbf", Procs: 1, K: 0, HeaderAt: -1, Stop: stopClose, Post: "HSEC", CtxKind: ctxDeadline, PreCancelled: true}, d1)
 	add(history{Format: "xml", K: 0, Stop: stopClose, Post: "SEC", CtxKind: ctxDeadline, PreCancelled: true}, d1)
 
